@@ -21,7 +21,10 @@
   /* reachability probe: must be reported FAILED, otherwise the job is vacuous */
   #define OSMT_REACH(t) __CPROVER_assert(0, "reach: " t)
 #endif
+struct osmt_ilist { void *p; unsigned long n; };   /* std::initializer_list<T> after lowering */
 extern int __osmt_thrown;
+void *malloc(__CPROVER_size_t);
+#define OSMT_DUMMY_PTR(T) ((T)malloc(sizeof(*((T)0))))
 #define OSMT_THROW(e) (__osmt_thrown = (e))
 #ifndef OSMT_AFTER_TYPES
 #define OSMT_AFTER_TYPES
